@@ -40,6 +40,7 @@ from props import _wasmrt
 PROPERTY = "C22"
 LEVEL = "translation_validation"
 JOB_TIMEOUT = {"quick": 280, "thorough": 1500}
+TASKS_PER_CHILD = 40
 MEM_BASE = 0x100000          # address of the linear memory in the IR-level model
 SYM_LO = list(range(0, 4))   # memory bytes that are symbolic inputs (start of memory)
 SYM_HI = list(range(65532, 65536))   # ... and the last 4 bytes of the first page
